@@ -94,6 +94,13 @@ impl ClassHeirarchy {
         );
     }
 
+    /// Order the children of every class by the given key (`None` sorts first).
+    pub fn sort_children_by_key<K: Ord>(&mut self, key: impl Fn(&str) -> Option<K>) {
+        for node in self.0.values_mut() {
+            node.children.sort_by_key(|child| key(child));
+        }
+    }
+
     /// Get a class by name. Panics if the class does not exist in the heirarchy.
     pub fn get(&self, name: &str) -> &InheritanceNode {
         self.0.get(name).unwrap()
